@@ -1579,3 +1579,13 @@ end Agd.Refresh
 #print axioms Agd.Tie.TrC13.replace_only_after_complete_download
 #print axioms Agd.Tie.TrC13.empty_body_rejected
 #print axioms Agd.Tie.TrC13.url_only_when_cache_is_stale
+#print axioms Agd.Tie.TrC13.file_missing_is_empty_success
+#print axioms Agd.Tie.TrC13.file_closed_exactly_once
+#print axioms Agd.Tie.TrC13.file_text_only_from_complete_fresh_read
+#print axioms Agd.Tie.TrC13.stale_cache_not_read
+#print axioms Agd.Tie.TrC13.refresh_dispatch
+#print axioms Agd.Tie.TrC13.file_url_reads_only_that_file
+#print axioms Agd.Tie.TrC13.cache_read_first_with_callers_staleness
+#print axioms Agd.Tie.TrC13.stale_cache_goes_to_url
+#print axioms Agd.Tie.TrC13.fresh_cache_never_downloads
+#print axioms Agd.Tie.TrC13.cache_error_stops_refresh
